@@ -4,13 +4,17 @@
  "entry": "h_readpass_file",
  "enforce": ["readpass_file"],
  "replace": [],
- "annotate": ["util/readpass_file.c"],
+ "annotate": ["util/readpass_file.c", "util/insecure_memzero.c"],
+ "specs": {"util/insecure_memzero.c": "contracts/util__insecure_memzero.c.drbg.spec"},
+ "expect_loops": ["insecure_memzero_func"],
+ "instrument_flags": ["--nondet-static-exclude", "insecure_memzero_ptr"],
  "defines": ["VERIF_HALLOC", "RP_BUFLEN=48", "VERIF_STRMAX=56"],
  "models": ["models/libc_string.c", "models/io_stdio.c", "models/io_warnp.c"],
  "cbmc": ["--malloc-may-fail", "--malloc-fail-null"],
  "bounded": true, "bound": "line buffer MAXPASSLEN scaled from 2048 to 48 bytes (code parametric in it); files of any length",
  "timeout": 300,
- "assumptions": ["fopen/fgets/fgetc/ferror/fclose: assumed contracts of models/io_stdio.c (C11 7.21; file = arbitrary finite byte sequence, lines of any length, NULs, no final newline)",
+ "assumptions": ["insecure_memzero_func is the real one (loop contract from contracts/util__insecure_memzero.c.drbg.spec); the volatile pointer insecure_memzero_ptr keeps its initialiser",
+                 "fopen/fgets/fgetc/ferror/fclose: assumed contracts of models/io_stdio.c (C11 7.21; file = arbitrary finite byte sequence, lines of any length, NULs, no final newline)",
                  "warn/warnx: models/io_warnp.c (no effect); strcspn/strlen/strdup: models/libc_string.c",
                  "file name length <= 8 (bounds the symbolic object only)"]
 }
@@ -18,7 +22,7 @@
 #include <stdlib.h>
 #include <string.h>
 #include "verif.h"
-size_t g_rp_len, g_rp_g, g_rp_fnend;
+size_t g_rp_len, g_rp_g, g_rp_fnend, g_mz_idx;
 #include "util/insecure_memzero.c"
 #include "util/readpass_file.c"
 
